@@ -86,6 +86,7 @@ class Cfg:
         self.annotation_rate = 0.08   # how often an operator of the tree is a user annotation instead
         self.stream_zero = False   # one of the streams is stream 0 (the null stream, as ROCm / Triton traces report it)
         self.deep_queue = 0        # that many launches enqueued on one stream before its first kernel starts
+        self.sync_ties = False     # the second thread enqueues work while the first is blocked; it starts when the call returns
         self.__dict__.update(kw)
 
     def to_json(self) -> Dict[str, Any]:
@@ -150,6 +151,7 @@ class RankSim:
         self.tl_kernels: Dict[int, List[Any]] = {s: [] for s in self.stream_ids}   # (launch ts, start, end)
         self.tl_records: Dict[int, List[int]] = {s: [] for s in self.stream_ids}    # cudaEventRecord call times
         self.tl_waits: Dict[int, List[Any]] = {s: [] for s in self.stream_ids}      # (cudaStreamWaitEvent call time, done)
+        self.tl_syncs: List[Any] = []      # (awaited stream or None for all, blocking call's start, its end)
         self.second_thread = False
         self.main_streams: List[int] = []
         # per-rank vocabulary (ranks differ)
@@ -210,14 +212,26 @@ class RankSim:
         if slot is not None:
             stream, kstart, hi = slot
             kdur = self.dur(big=True)
+            # a tie the kernel loop has to order: work the other thread enqueues while this stream's owner is blocked in
+            # a synchronisation call is not awaited by it and may start at the very instant the call returns, and be
+            # shorter than the call was long
+            ties = [(tc, te) for (ws, tc, te) in self.tl_syncs if (ws is None or ws == stream) and tc < t < te and kstart <= te
+                    and (hi is None or te < hi) and te - tc >= 2]
+            if ties and rng.random() < 0.7:
+                tc, te = rng.choice(ties)
+                kstart = te
+                kdur = max(1, min(kdur, te - tc - 1))
             if hi is not None:
                 kdur = min(kdur, hi - kstart)
+            kstart, kdur = self.fit_around_syncs(stream, kstart, kdur, move=False)
             self.last_end[stream] = max(self.last_end[stream], kstart + kdur)
         else:
             kstart = max(t + self.g * rng.choice([0, 0, 1, 2, 5]),
                          self.last_end[stream] + self.g * rng.choice([0, 0, 1, 3, 10]),
                          self.wait_until.get(stream, 0))
             kdur = self.dur(big=True)
+            if self.second_thread:
+                kstart, kdur = self.fit_around_syncs(stream, kstart, kdur, move=True)
             self.last_end[stream] = kstart + kdur
         self.tl_kernels[stream].append((t, kstart, kstart + kdur))
         drop = rng.random()
@@ -236,6 +250,22 @@ class RankSim:
                 args["registers per thread"] = 32
             self.x(dcat, dname, self.dev_pid, stream, kstart, kdur, args)
         return t + d
+
+    def fit_around_syncs(self, stream: int, kstart: int, kdur: int, move: bool):
+        """Work of the second host thread (simulated after the first) must not be running across the return of a
+        blocking call of the first thread that awaits its stream: activities that start before the call returns are
+        what the call waited for. The activity is cut short at the return, or (on the thread's own streams) moved
+        behind it."""
+        for _ in range(6):
+            hit = [te for (ws, tc, te) in self.tl_syncs if (ws is None or ws == stream) and kstart < te < kstart + kdur]
+            if not hit:
+                break
+            te = min(hit)
+            if move and self.rng.random() < 0.5:
+                kstart = te
+            else:
+                kdur = te - kstart
+        return kstart, kdur
 
     def shared_slot(self, t: int):
         """A place for work the second host thread launches at time `t` on a stream of the first thread: after the
@@ -272,6 +302,7 @@ class RankSim:
         end = max(t + self.dur(), busy_until + self.g * rng.choice([0, 0, 1]))
         self.x("cuda_runtime", name, self.host_pid, tid, t, end - t,
                {"correlation": c, "External id": c + 1, "cbid": 131, "_stream": waits[0]})
+        self.tl_syncs.append((waits[0] if len(waits) == 1 else None, t, end))
         return end
 
     def event_op(self, t: int, tid: int, streams: List[int]) -> int:
@@ -415,10 +446,41 @@ class RankSim:
                     cur = e_end + self.gap()
                     if cur >= bwd_window[1]:
                         break
+            elif cfg.sync_ties and any(te - tc >= 2 for (_, tc, te) in self.tl_syncs):
+                # the second thread only enqueues one short activity during each long enough blocking call of the first;
+                # the call does not wait for it, the awaited stream is idle when the call returns, so it starts right then
+                # (all of it inside one long operator of that thread which begins with the trace, so that the thread's
+                # chain of nodes is as heavy as the first thread's when it reaches the launch)
+                wrap = rng.random() < 0.7
+                if wrap:
+                    last = max(te for (_, tc, te) in self.tl_syncs)
+                    self.x("cpu_op", "autograd::engine::evaluate_function", self.host_pid, bwd_tid, t_begin, last + 4 - t_begin, {"External id": self.next_corr()})
+                for (ws, tc, te) in sorted(self.tl_syncs, key=lambda x: x[1]):
+                    if te - tc < 2 or rng.random() < 0.25 or tc + 1 <= t_begin:
+                        continue
+                    stream = ws if ws is not None else rng.choice(main_streams)
+                    nxt = [k[1] for k in self.tl_kernels[stream] if k[1] >= te]
+                    busy = any(k[1] < te < k[2] for k in self.tl_kernels[stream])
+                    room = (min(nxt) - te) if nxt else 10 ** 9
+                    kdur = min(rng.randint(1, te - tc - 1), room)
+                    kstart, kdur = self.fit_around_syncs(stream, te, kdur, move=False)
+                    if busy or kdur < 1:
+                        continue
+                    c = self.next_corr()
+                    self.x("cpu_op", rng.choice(BWD_OPS), self.host_pid, bwd_tid, tc + 1, 2, {"External id": c + 1})
+                    self.x("cuda_runtime", "cudaLaunchKernel", self.host_pid, bwd_tid, tc + 1, 1, {"correlation": c, "External id": c + 1, "cbid": 211})
+                    self.x("kernel", self.kernel_name(), self.dev_pid, stream, kstart, kdur,
+                           {"correlation": c, "stream": stream, "device": self.rank, "External id": c + 1, "grid": [1, 1, 1], "registers per thread": 32})
+                    self.tl_kernels[stream].append((tc + 1, kstart, kstart + kdur))
             else:
                 start = t_begin + self.g * rng.choice([0, 1, 4, 9] if not cfg.share_streams else [0, 1, 4, 9, 15, 25, 40, 60])
                 waits = [w[0] for s in main_streams for w in self.tl_waits[s]]
-                if cfg.share_streams and waits and rng.random() < 0.7:
+                blocked = [sy for sy in self.tl_syncs if sy[2] - sy[1] >= 2 * self.g]
+                if cfg.share_streams and blocked and rng.random() < 0.5:
+                    # ... or while the first one is blocked in a synchronisation call
+                    sy = rng.choice(blocked)
+                    start = max(t_begin, sy[1] - self.g * rng.choice([0, 1, 2]))
+                elif cfg.share_streams and waits and rng.random() < 0.7:
                     # the second thread gets busy just after the first one told a stream to wait for an event
                     start = rng.choice(waits) - cfg.offset * 0 + self.g * rng.choice([0, 0, 1])
                 self.ops_seq(start, rng.randint(1, 3) + (2 if cfg.share_streams else 0), bwd_tid, bstreams, BWD_OPS)
